@@ -1,8 +1,19 @@
 // Package racefilter parses Go race detector logs and separates the benign
 // cache-publication reports (the lazy-load caches gkvlite deliberately leaves
-// unsynchronised: nodeLoc.loc/node, itemLoc.loc/item) from reports that touch
-// the state the concurrency properties are anchored in.
+// unsynchronised: nodeLoc.loc/node, itemLoc.loc/item - the maintainers'
+// compile-time switches nodeMutex/itemLocMutex are off and they exclude a
+// test from race builds for this reason) from reports that touch the state
+// the concurrency properties are anchored in.  The class table is fixed here,
+// with a justification per entry; it is never learned from runs.
 package racefilter
+
+import (
+	"fmt"
+	"os"
+	"regexp"
+	"sort"
+	"strings"
+)
 
 // Violation is a race report that is not a benign cache publication.
 type Violation struct {
@@ -10,7 +21,205 @@ type Violation struct {
 	Detail string
 }
 
-// Classify is filled in together with the C05 check.
+type access struct {
+	write  bool
+	frames []string // function names, innermost first
+}
+
+// benignWriters: functions whose WRITE access publishes / fills a lazily
+// loaded cache entry of immutable file content (idempotent).
+var benignWriters = map[string]string{
+	"(*nodeLoc).setLoc":    "records the file location of a node after it was written (same value for all readers)",
+	"(*nodeLoc).setNode":   "caches a node loaded from the file",
+	"(*itemLoc).setLoc":    "records the file location of an item after it was written",
+	"(*itemLoc).casItem":   "caches / evicts an item loaded from the file",
+	"populateNode":         "initialises a freshly allocated node that is only afterwards published through setNode",
+	"(*ploc).read":         "initialises a freshly allocated ploc that is only afterwards published",
+	"(*node).setNumBytes":  "initialises a freshly allocated node (populateNode)",
+	"(*node).setNumNodes":  "initialises a freshly allocated node (populateNode)",
+	"(*Store).ItemAlloc":   "allocates an item that is only afterwards published through casItem",
+	"(*Store).ItemValRead": "fills the value of a freshly allocated item before it is published",
+	"(*itemLoc).read":      "field initialisation of a freshly allocated item before casItem publishes it",
+	"(*nodeLoc).write":     "allocates the ploc that setLoc publishes",
+	"(*itemLoc).write":     "allocates the ploc that setLoc publishes",
+	"(*nodeLoc).read":      "allocation inside the lazy node load",
+}
+
+// benignReaders: the by-value copy of a node struct in nodeLoc.write
+// (node.populateDiskStruct has a value receiver) reads fields it never uses.
+var benignReaders = map[string]string{
+	"(*nodeLoc).write": "by-value copy of the node for populateDiskStruct (reads next / item.item without using them)",
+}
+
+// critical functions: any report with one of these on either side is a violation.
+var critical = []string{
+	"mkNode", "freeNodeUnlocked", "mkNodeLoc", "freeNodeLoc", "mkRootNodeLoc", "freeRootNodeLoc",
+	"markReclaimable", "unmarkReclaimable", "markTreeReclaimableUnlocked", "reclaimMarkUpdate", "reclaimNodesUnlocked",
+	"rootCAS", "rootAddRef", "rootDecRef", "rootDecRefUnlocked", "closeCollection",
+	"setColl", "getColl", "casColl", "setSize", "getSize", "SetCollection", "RemoveCollection", "Snapshot",
+	"(*nodeLoc).Copy", "(*itemLoc).Copy",
+}
+
+var fnRe = regexp.MustCompile(`^\s+(\S+)\(`)
+
+func short(fn string) string {
+	// github.com/cbehopkins/gkvlite.(*nodeLoc).setNode -> (*nodeLoc).setNode
+	if i := strings.Index(fn, "gkvlite."); i >= 0 {
+		return fn[i+len("gkvlite."):]
+	}
+	return fn
+}
+
+func parse(paths []string) (reports [][]access, raw []string) {
+	for _, p := range paths {
+		b, err := os.ReadFile(p)
+		if err != nil {
+			continue
+		}
+		for _, blk := range strings.Split(string(b), "==================") {
+			if !strings.Contains(blk, "WARNING: DATA RACE") {
+				continue
+			}
+			var accs []access
+			var cur *access
+			for _, l := range strings.Split(blk, "\n") {
+				t := strings.TrimSpace(l)
+				switch {
+				case strings.HasPrefix(t, "Write at"), strings.HasPrefix(t, "Previous write at"), strings.HasPrefix(t, "Atomic write"), strings.HasPrefix(t, "Previous atomic write"):
+					accs = append(accs, access{write: true})
+					cur = &accs[len(accs)-1]
+				case strings.HasPrefix(t, "Read at"), strings.HasPrefix(t, "Previous read at"), strings.HasPrefix(t, "Atomic read"), strings.HasPrefix(t, "Previous atomic read"):
+					accs = append(accs, access{})
+					cur = &accs[len(accs)-1]
+				case strings.HasPrefix(t, "Goroutine "), strings.HasPrefix(t, "Location:"):
+					cur = nil
+				default:
+					if cur != nil {
+						if m := fnRe.FindStringSubmatch(l); m != nil && !strings.HasPrefix(t, "/") {
+							cur.frames = append(cur.frames, m[1])
+						}
+					}
+				}
+			}
+			if len(accs) >= 2 {
+				reports = append(reports, accs[:2])
+				raw = append(raw, blk)
+			}
+		}
+	}
+	return
+}
+
+func innerGkv(a access) string {
+	for _, f := range a.frames {
+		if strings.Contains(f, "gkvlite.") {
+			return short(f)
+		}
+	}
+	return ""
+}
+
+// harnessOnly reports whether the access has no gkvlite frame at all (it
+// is an access of harness code to memory, e.g. the visitor reading an item).
+func harnessOnly(a access) bool { return innerGkv(a) == "" }
+
+// markWriters only ever write the free-list/reclaim-mark link n.next.
+var markWriters = map[string]bool{"(*Collection).markReclaimable": true, "(*Collection).reclaimMarkUpdate": true,
+	"(*Collection).unmarkReclaimable": true, "markTreeReclaimableUnlocked": true}
+
+func isCritical(a access) string {
+	s := innerGkv(a)
+	if s == "" {
+		return ""
+	}
+	for _, c := range critical {
+		if s == c || strings.HasSuffix(s, ")."+c) {
+			if strings.HasSuffix(c, ".Copy") && !a.write {
+				return "" // Copy reads its source; only its writes (construction of a node) are critical
+			}
+			return s
+		}
+	}
+	return ""
+}
+
+// classifyPair returns "" for a benign cache-publication report, else the reason.
+func classifyPair(a, b access) string {
+	if !a.write && !b.write {
+		return ""
+	}
+	// both sides outside gkvlite: the harness races with itself
+	if harnessOnly(a) && harnessOnly(b) {
+		return "harness"
+	}
+	for _, p := range [][2]access{{a, b}, {b, a}} {
+		w, o := p[0], p[1]
+		if !w.write {
+			continue
+		}
+		wi := innerGkv(w)
+		// the flusher's by-value copy of a node (populateDiskStruct has a value
+		// receiver) reads n.next without using it, while the mutator sets a mark
+		if markWriters[wi] && !o.write && innerGkv(o) == "(*nodeLoc).write" {
+			continue
+		}
+		if c := isCritical(w); c != "" {
+			return "critical"
+		}
+		if harnessOnly(w) {
+			return "harness-writes-shared-memory"
+		}
+		if benignWriters[wi] == "" {
+			return "unclassified-writer"
+		}
+		// a benign (cache publication) writer: the other side may be any reader or
+		// another publication, but not an access from inside the allocator / pin code
+		if c := isCritical(o); c != "" {
+			return "critical"
+		}
+	}
+	return ""
+}
+
+// Classify returns a summary and the violations.
 func Classify(paths []string) (map[string]interface{}, []Violation) {
-	return map[string]interface{}{"reports": 0}, nil
+	reports, raw := parse(paths)
+	benign := map[string]int{}
+	viol := map[string]int{}
+	violRaw := map[string]string{}
+	for i, r := range reports {
+		a, b := r[0], r[1]
+		pair := []string{innerGkv(a), innerGkv(b)}
+		sort.Strings(pair)
+		key := pair[0] + " <-> " + pair[1]
+		reason := classifyPair(a, b)
+		if reason == "" {
+			benign[key]++
+			continue
+		}
+		k := reason + ": " + key
+		viol[k]++
+		if _, ok := violRaw[k]; !ok {
+			violRaw[k] = raw[i]
+		}
+	}
+	var vs []Violation
+	var keys []string
+	for k := range viol {
+		keys = append(keys, k)
+	}
+	sort.Strings(keys)
+	for _, k := range keys {
+		sig := "race/" + strings.NewReplacer(" ", "", "<->", "~").Replace(k)
+		blk := violRaw[k]
+		if len(blk) > 3000 {
+			blk = blk[:3000]
+		}
+		vs = append(vs, Violation{Sig: sig, Detail: fmt.Sprintf("%d race report(s) outside the benign cache-publication class (%s):\n%s", viol[k], k, blk)})
+	}
+	sum := map[string]interface{}{
+		"reports": len(reports), "benign_cache_publication_pairs": benign, "violating_pairs": viol,
+		"class_definition": "benign = every write access of the pair is a cache publication / initialisation-before-publication of immutable file content (nodeLoc.setLoc/setNode, itemLoc.setLoc/casItem, populateNode, ploc.read, ItemAlloc, ItemValRead, allocation in nodeLoc/itemLoc read/write); violation = a frame in the allocator, reclaim-mark, root CAS/ref, collection-map or size code, nodeLoc/itemLoc Copy as the writer, or harness code",
+	}
+	return sum, vs
 }
